@@ -128,7 +128,9 @@ class Renderer:
         """render e where grammar level >= need is required"""
         lv = level(e)
         wrap = lv < need
-        if not wrap and e[0] not in ("id", "const", "str"):
+        if not wrap:
+            # identifiers, constants and string literals are operands too:
+            # '(a)[0]', 'sizeof (a)[0]', 'f((1))' must change nothing
             if self.mode == "full":
                 wrap = True
             elif self.mode == "red" and self.paren(e):
